@@ -213,9 +213,16 @@ func (c *child) endBatch() {
 	}
 	if delta > own+fixedBudget/2 {
 		for _, p := range c.batch {
-			before := exactAlloc()
+			// cheap estimate first (runtime/metrics lags by at most the per-P caches), exact numbers
+			// (ReadMemStats stops the world) only when the estimate is not clearly within budget
+			b0 := c.allocNow()
 			c.decodeOnce(p, false)
-			d := exactAlloc() - before
+			d := c.allocNow() - b0
+			if d > budget(len(p))/2 {
+				before := exactAlloc()
+				c.decodeOnce(p, false)
+				d = exactAlloc() - before
+			}
 			if d > c.res.MaxAlloc {
 				c.res.MaxAlloc = d
 			}
@@ -439,7 +446,7 @@ func spawn(env []string, stall time.Duration, hard time.Time) *childRun {
 	}
 	cmd := exec.Command(os.Args[0], "-test.run", "^TestVerif$", "-test.timeout", "0", "-test.count", "1")
 	cmd.Env = append(os.Environ(), env...)
-	cmd.Env = append(cmd.Env, "C05_CHILD=1", "VERIF_OUT="+os.DevNull, "VERIF_REPLAY=")
+	cmd.Env = append(cmd.Env, "C05_CHILD=1", "VERIF_OUT="+os.DevNull, "VERIF_REPLAY=", "GOMAXPROCS=1")
 	cmd.ExtraFiles = []*os.File{pw}
 	var errb bytes.Buffer
 	cmd.Stdout = &errb
